@@ -210,6 +210,16 @@ def checkSameOrigin (r : Request) : Bool :=
     | none => false
     | some h => foldEq h r.host
 
+/-- `checkSameHost` of `handler_websocket.go`, the `CheckOrigin` that `NewWebsocketHandler` installs
+when the application does not provide one: an empty/absent first `Origin` value passes, otherwise
+the parsed origin host must equal `Host` (`strings.EqualFold`; hosts are ASCII, where Unicode and
+ASCII case folding coincide). -/
+def checkSameHost (r : Request) : Bool :=
+  if (r.get "Origin").isEmpty then true
+  else match r.originHost with
+    | none => false
+    | some h => foldEq r.host h
+
 /-! `strings.TrimSpace`: Unicode White_Space, i.e. ASCII `\t \n \v \f \r ␠`, U+0085, U+00A0,
 U+1680, U+2000…U+200A, U+2028, U+2029, U+202F, U+205F, U+3000 in their UTF-8 encodings. -/
 
